@@ -159,7 +159,7 @@ func gen(r *rand.Rand, idx int, cli bool) *genScript {
 		wantOK := !(i == failAt || (failed && r.Intn(3) == 0))
 		t, o, what, ap := m.gen(wantOK)
 		runs := true
-		if r.Intn(4) == 0 && !strings.Contains(t, "unterminated") && o != oStop && o != oSkip {
+		if r.Intn(4) == 0 && !m.fromQueue && !strings.Contains(t, "unterminated") && o != oStop && o != oSkip {
 			var co outcome
 			t, runs, co = m.cond(t)
 			if co == oFail {
@@ -376,7 +376,9 @@ func main() {
 					os.WriteFile(f, []byte(g.text), 0o666)
 					files = append(files, f)
 				}
-				p := testscript.Params{Files: files, Cmds: cmds, WorkdirRoot: wroot,
+				// safety net only: a script that hangs (no generated script may) is ended by the deadline and then
+				// shows up as a verdict mismatch instead of stalling the whole check
+				p := testscript.Params{Files: files, Cmds: cmds, WorkdirRoot: wroot, Deadline: time.Now().Add(90 * time.Second),
 					ContinueOnError: gs[0].continueOn, RequireExplicitExec: gs[0].explicit, RequireUniqueNames: gs[0].unique}
 				if gs[0].final.customCond {
 					p.Condition = condFn
